@@ -28,6 +28,7 @@ func init() {
 		}
 		us = append(us, Search{Sc: VSCRelay{Variant: "batch", Epoch: 1, Delay: 1}, Depth: d + 3})
 		us = append(us, Search{Sc: VSCRelay{Variant: "expiry", Epoch: 1, Delay: 1}, Depth: d + 2})
+		us = append(us, Search{Sc: VSCRelay{Variant: "latebatch", Epoch: 1, Delay: 1}, Depth: d + 2})
 		if tier == "thorough" {
 			us = append(us, Search{Sc: VSCRelay{Variant: "open", Epoch: 3, Delay: 2}, Depth: d + 1})
 		}
